@@ -172,6 +172,70 @@ def run(ctx):
         res.site(key, True, {"fields_touched": sorted(touched), "verdict": "ok" if ok else "VIOLATION"})
         if not ok:
             res.find(key, g.loc(), "Call::default_memory_accesses does not populate both reads and writes (touches %s)" % sorted(touched), "a CALL is not ordered against a later read of its return slot")
+        # CALL table: which set each region-carrying argument is inserted into, and under exactly which conditions
+        from qv.rules.guards import same_origin
+        from qv.engine import expr_calls
+        final = [s_ for bb, s_ in aggregates(g, MA)]
+        sets = {}
+        if len(final) == 1:
+            for n, o in zip(final[0]["rv"]["a"]["fields"], final[0]["rv"]["ops"]):
+                sets[n] = fn_expr_operand(g, o)
+
+        def nodes(e):
+            out = []
+            walk_expr(e, out.append)
+            return out
+
+        def classify_ctl(sb, tgt):
+            tt = g.blocks[sb]["t"]
+            if tt["k"] != "switch":
+                return "other:" + tt["k"]
+            e = fn_expr_operand(g, tt["d"])
+            taken = [int(v) for v, x in tt["ts"] if x == tgt]
+            truthy = (taken != [0]) if taken else ([int(v) for v, x in tt["ts"]] == [0])
+            ns = nodes(e)
+            if e[0] == "discr":
+                inner = e[1]
+                if inner[0] == "call" and inner[1].endswith("Try>::branch"):
+                    return "lookup-ok"
+                if inner[0] == "call" and inner[1].endswith("::next"):
+                    return "iter-next"
+                if any(n[0] == "call" and n[1].endswith("::next") for n in ns):
+                    return "arg-variant"
+            if e[0] == "call" and e[1].endswith("::is_some") and any(n[0] == "field" and n[2] == "return_type" for n in ns):
+                return "has-return-type" if truthy else "no-return-type"
+            if e[0] == "field" and e[2] == "mutable":
+                return "mutable" if truthy else "not-mutable"
+            return "other:" + (e[1] if e[0] == "call" else e[0])[-40:]
+
+        rows = {}
+        for bb, t, c in g.calls():
+            if not (c and c.get("name") == "insert"):
+                continue
+            a = [fn_expr_operand(g, x) for x in t["args"]]
+            which = [n for n, se in sets.items() if same_origin(se, a[0])]
+            if len(which) != 1:
+                continue
+            val = a[1]
+            ns = nodes(val)
+            variants = sorted({n[2] for n in ns if n[0] == "as" and n[2] in ("MemoryReference", "Identifier")})  # a merged (phi) region name stands for each variant it merges
+            src_ = "loop" if any(n[0] == "call" and n[1].endswith("::zip") for n in ns) else "return-slot" if any(n[0] == "call" and n[1].endswith("::next") for n in ns) else "?"
+            ctl = frozenset(classify_ctl(sb, tgt) for sb, tgt in g.control_deps(bb))
+            for variant in variants:
+                rows.setdefault((src_, variant, which[0]), set()).add(ctl)
+        base_loop = {"lookup-ok", "iter-next", "arg-variant"}
+        base_slot = base_loop | {"has-return-type"}
+        for src_, base in (("loop", base_loop), ("return-slot", base_slot)):
+            for variant in ("MemoryReference", "Identifier"):
+                for which in ("reads", "writes"):
+                    key = "K5|call-table|%s|%s|%s" % (src_, variant, which)
+                    want = base | ({"mutable"} if (src_ == "loop" and which == "writes") else set())
+                    got = rows.get((src_, variant, which))
+                    ok = got == {frozenset(want)}
+                    res.site(key, True, {"conditions": [sorted(x) for x in got] if got else None, "expected": sorted(want), "verdict": "ok" if ok else "VIOLATION"})
+                    if not ok:
+                        res.find(key, g.loc(), "CALL %s argument (%s): insertion into `%s` happens under conditions %s; expected exactly %s" % (src_, variant, which, [sorted(x) for x in got] if got else "never", sorted(want)), "`CALL f x x` with (a : REAL, b : mut REAL): the write of x is not reported, or an immutable argument is reported written")
+        res.count("call_table_rows", len(rows), floor=8)
     res.explanation = "Per-variant operand-to-access-kind flows (%d table rows) computed from the MemoryAccesses aggregates and helper summaries of DefaultHandler::memory_accesses, compared with the specification table; exhaustive match; CALL's mutable-dependent writes." % nrows
     res.assumptions = ["oracle table in qv/oracles/memory_access_table.py"]
     return res
